@@ -164,6 +164,8 @@ class Corr:
                     good = False
                 elif mode == "exact":
                     good = Fraction(r) == Fraction(t)
+                elif mode == "relfloat":  # outputs in the data's units (possibly a flux ~1e-10): relative to the output scale
+                    good = abs(r - float(Fraction(t))) <= 1e-9 * scale
                 else:
                     good = abs(r - float(Fraction(t))) <= 1e-9 * (1 + scale)
                 if not good:
@@ -176,25 +178,37 @@ def corr_hurdle_iz(rng, k, corr, res):
     from ibicus.utils import _math_utils as M
 
     n = rng.randint(2, 14)
-    data = gen_precip(rng, n)
-    xs = np.concatenate([data, np.array([0.0, 0.0] + [rng.randint(0, 3000) / 64 for _ in range(4)])])
-    loc = rng.choice([0.0, 0.0, 0.5, 1.0, 0.25])
-    scale = rng.choice([1.0, 2.0, 0.5, 4.0, 0.125])
+    # units: mm/day (1) or a flux in kg m-2 s-1 (values down to 2^-40 ~ 1e-12: wet values far below 1e-8 occur)
+    unit = rng.choice([1.0, 1.0, 2.0 ** -20, 2.0 ** -34])
+    dt = np.float32 if rng.random() < 0.3 else np.float64  # dyadic values: exactly representable in float32
+    data = (gen_precip(rng, n) * unit).astype(dt)
+    xs = np.concatenate([data, (np.array([0.0, 0.0] + [rng.randint(0, 3000) / 64 for _ in range(4)]) * unit).astype(dt)])
+    loc = rng.choice([0.0, 0.0, 0.5, 1.0, 0.25]) * unit
+    scale = rng.choice([1.0, 2.0, 0.5, 4.0, 0.125]) * unit
     rand = rng.random() < 0.6
     fit_kwds = rng.choice([{"floc": 0, "fscale": None}, {"floc": 0, "fscale": None}, None])
     dbl = make_double(loc, scale)
     tag = f"case {k} hurdle rand={rand} loc={loc} scale={scale}"
     model = M.gen_PrecipitationHurdleModel(distribution=dbl, fit_kwds=fit_kwds, cdf_randomization=rand)
-    R = C.rlist
+
+    def R(a):
+        return C.rlist(np.asarray(a, dtype=np.float64))
+
     np.random.seed(C.seed() * 1000 + k)
     with Patched() as P:
         fit = quiet(model.fit, data)
         p0 = float(fit[0])
-        cdf = np.asarray(quiet(model.cdf, xs, *fit), dtype=float)
-        qs = np.concatenate([cdf, np.array([p0, 0.0, 1.0 - 2.0 ** -20, p0 / 2, (1 + p0) / 2])])
-        ppf = np.asarray(quiet(model.ppf, qs, *fit), dtype=float)
-    res.count(("hurdle", n, int((data == 0).sum()), rand, loc > 0, fit_kwds is None), True,
-              sample={"model": "hurdle", "data": data.tolist()[:8], "rand": rand, "loc": loc, "scale": scale, "p0": p0})
+        cdf_raw = np.asarray(quiet(model.cdf, xs, *fit))
+        cdf_dtype = cdf_raw.dtype
+        cdf = cdf_raw.astype(float)
+        qs = np.concatenate([cdf_raw, np.array([p0, 0.0, 1.0 - 2.0 ** -20, p0 / 2, (1 + p0) / 2])])
+        ppf_raw = np.asarray(quiet(model.ppf, qs, *fit))
+        ppf_dtype = ppf_raw.dtype
+        ppf = ppf_raw.astype(float)
+    res.count(("hurdle", n, int((data == 0).sum()), rand, loc > 0, fit_kwds is None, unit, dt.__name__), True,
+              sample={"model": "hurdle", "data": data.tolist()[:8], "dtype": dt.__name__, "rand": rand, "loc": loc, "scale": scale, "p0": p0})
+    # the cdf / ppf are computed in double precision whatever the dtype of the data
+    corr.direct(cdf_dtype == np.float64 and ppf_dtype == np.float64, f"{tag} cdf / ppf of {dt.__name__} data are float64", (cdf_dtype, ppf_dtype), "float64")
     # fit: p0 and what the amounts distribution was fitted on
     corr.add(f"p0 {R(data)}", [p0], "float", f"{tag} fit p0")
     call = dbl.fit_calls[0] if dbl.fit_calls else (np.array([]), None, None)
@@ -211,7 +225,7 @@ def corr_hurdle_iz(rng, k, corr, res):
         corr.direct(len(P.uniform_calls) == 0, f"{tag} no random draw without cdf_randomization", len(P.uniform_calls), 0)
         us = np.zeros_like(xs)
     corr.add(f"hcdf {C.rat(loc)} {C.rat(scale)} {C.rat(p0)} {'true' if rand else 'false'} {R(xs)} {R(us)}", cdf, "float", f"{tag} cdf")
-    corr.add(f"hppf {C.rat(loc)} {C.rat(scale)} {C.rat(p0)} {R(qs)}", ppf, "float", f"{tag} ppf", scale=float(np.nanmax(np.where(np.isfinite(ppf), np.abs(ppf), 0))))
+    corr.add(f"hppf {C.rat(loc)} {C.rat(scale)} {C.rat(p0)} {R(qs)}", ppf, "relfloat", f"{tag} ppf", scale=float(np.nanmax(np.where(np.isfinite(ppf), np.abs(ppf), 0))))
 
     # ignore-zeros model on the same data
     dbl2 = make_double(loc, scale)
@@ -219,16 +233,19 @@ def corr_hurdle_iz(rng, k, corr, res):
     tag2 = f"case {k} ignore_zeros loc={loc} scale={scale}"
     with Patched() as P2:
         fit2 = quiet(model2.fit, data)
-        cdf2 = np.asarray(quiet(model2.cdf, xs, *fit2), dtype=float)
-        qs2 = np.concatenate([cdf2, np.array([-np.inf, 0.0, 0.5, 0.75])])
-        ppf2 = np.asarray(quiet(model2.ppf, qs2, *fit2), dtype=float)
-    res.count(("ignore_zeros", n, int((data == 0).sum()), loc > 0, fit_kwds is None), True)
+        cdf2_raw = np.asarray(quiet(model2.cdf, xs, *fit2))
+        cdf2 = cdf2_raw.astype(float)
+        qs2 = np.concatenate([cdf2_raw, np.array([-np.inf, 0.0, 0.5, 0.75])])
+        ppf2_raw = np.asarray(quiet(model2.ppf, qs2, *fit2))
+        ppf2 = ppf2_raw.astype(float)
+    res.count(("ignore_zeros", n, int((data == 0).sum()), loc > 0, fit_kwds is None, unit, dt.__name__), True)
+    corr.direct(cdf2_raw.dtype == np.float64 and ppf2_raw.dtype == np.float64, f"{tag2} cdf / ppf of {dt.__name__} data are float64", (cdf2_raw.dtype, ppf2_raw.dtype), "float64")
     call2 = dbl2.fit_calls[0] if dbl2.fit_calls else (np.array([]), None, None)
     corr.add(f"rainy {R(data)}", call2[0], "exact", f"{tag2} data handed to distribution.fit")
     corr.direct(len(dbl2.fit_calls) == 1 and call2[1] == () and call2[2] == want_kw, f"{tag2} distribution.fit called as fit(rainy_days, **fit_kwds)", call2[1:], want_kw)
     corr.direct(len(P2.uniform_calls) == 0, f"{tag2} no random draw", len(P2.uniform_calls), 0)
     corr.add(f"izcdf {C.rat(loc)} {C.rat(scale)} {R(xs)}", cdf2, "float", f"{tag2} cdf")
-    corr.add(f"izppf {C.rat(loc)} {C.rat(scale)} {','.join(tok(float(q)) for q in qs2)}", ppf2, "float", f"{tag2} ppf",
+    corr.add(f"izppf {C.rat(loc)} {C.rat(scale)} {','.join(tok(float(q)) for q in qs2)}", ppf2, "relfloat", f"{tag2} ppf",
              scale=float(np.nanmax(np.where(np.isfinite(ppf2), np.abs(ppf2), 0))))
 
 
@@ -504,7 +521,8 @@ def run(tier, res, force_search=False):
             continue
         seen.add(key)
         res.violations.append((desc, {"property": PROP, "failing_input": case, "signature": sig}))
-    if res.tie_broken and not problems:
+    unknown = [v for v in res.violations if C.match_known(PROP, v[1]) is None]
+    if res.tie_broken and not unknown:
         res.violations.append(("proof obligation / correspondence no longer checks: " + "; ".join(res.tie_broken)[:600],
                                {"property": PROP, "failing_input": None, "broken": res.tie_broken, "mismatches": corr.mismatches[:5]}))
     return res
